@@ -355,6 +355,11 @@ class Engine(
 
     def append_binary(self, operation: BinaryOperation, lhs: Relation, rhs: Relation) -> Select:
         # Docstring inherited.
+        if lhs.engine != self or rhs.engine != self:
+            # Never wrap a relation from another engine in a Select marker.
+            raise EngineError(
+                f"Mismatched engines for {operation} in engine {self}: {lhs.engine} and {rhs.engine}."
+            )
         conformed_lhs = self.conform(lhs)
         conformed_rhs = self.conform(rhs)
         return self._append_binary_to_select(operation, conformed_lhs, conformed_rhs)
